@@ -51,8 +51,19 @@ func Compare(p *oracle.Program, budget int64) Verdict {
 	g := GoatRun(p, budget)
 	v := Verdict{Go: res, Goat: g}
 	if g.Budget {
-		v.Skip = "budget"
-		return v
+		// The instruction budget is a deterministic bound, not a clock. Generated programs bound every loop by
+		// construction; when the Go toolchain has run the program to completion with modest output and goatlang is still
+		// running after twenty times the usual budget, a loop or a recursion does not reach the end Go reaches.
+		g = GoatRun(p, budget*20)
+		v.Goat = g
+		if g.Budget {
+			if !res.Panicked && len(res.Stdout) < 1<<20 {
+				v.Msg = fmt.Sprintf("Go runs the program to completion (%d bytes of output); goatlang is still running after %d instructions", len(res.Stdout), budget*20)
+				return v
+			}
+			v.Skip = "budget"
+			return v
+		}
 	}
 	switch {
 	case g.Panic != nil:
